@@ -301,6 +301,23 @@ def evaluate(model, build, entries, moreau=True):
                     '= %s, x = %s' % (j, _s(PA.reduce_full(u + sig * v)),
                                       _s(x)))
                 break
+        else:
+            # the same decomposition in the calling form the solvers use:
+            # both proximals applied in place to their own argument
+            q1 = _mk(dom, entries)
+            q2 = _mk(dom, [x / sig for x in xs])
+            I.call(I.call(I.getattr_value(f, 'proximal'), [sig], {}),
+                   [q1], {'out': q1})
+            I.call(I.call(I.getattr_value(fc, 'proximal'), [1 / sig], {}),
+                   [q2], {'out': q2})
+            for j, (u, v, x) in enumerate(zip(flat(q1), flat(q2), xs)):
+                if not PA.same(u + sig * v, x, WIT):
+                    res['probs'].append(
+                        'Moreau with both proximals applied in place '
+                        '(out = input), entry %d: prox_{s f}(x) + s '
+                        'prox_{f*/s}(x/s) = %s, x = %s' % (
+                            j, _s(PA.reduce_full(u + sig * v)), _s(x)))
+                    break
     except PyRaise as e:
         if e.name == 'NotImplementedError':
             res['skipped'].append('a proximal is not available')
